@@ -116,7 +116,7 @@ Proof. apply (cf_release_call_by nf); reflexivity. Qed.
 
 Lemma L5_step s e : L5 s -> L5 (step repaired s e).
 Proof.
-  intros H. destruct e as [c|k|r|a|g|a|g en|g v hr er|g|k|c|c|c|c res|c]; cbn [step].
+  intros H. destruct e as [c|k|r|a|g|a|g en|g v hr er|g|k|c|c|c|c res|c|c]; cbn [step].
   - unfold set_context. destruct (Nat.eqb (kctx s) c); [exact H | apply L5_start_resolve].
   - now apply L5_add_ref.
   - destruct (rkind (nth r (refs s) ref0)); try exact H;
@@ -146,6 +146,7 @@ Proof.
   - apply (L5_cons_like s); [apply kfr_cb_return | apply vw_cb_return | apply vf_cb_return | apply (cf_cb_return nf); reflexivity | exact H].
   - destruct (Nat.eqb c 0); [exact H|]. destruct (cancel_root_kfr s c) as [K1 _]. destruct (cancel_root_frame s c) as [E1 [_ [_ [_ [_ [E6 _]]]]]].
     apply (L5_frame s); [exact K1 | unfold nrefs; now rewrite E1 | congruence | apply nf_cancel_root | exact H].
+  - destruct (watch_step_spec s c) as [->|[x [y [_ [-> _]]]]]; [exact H|]. apply (L5_frame s); try reflexivity; auto.
 Qed.
 
 Theorem run_L5 k es : L5 (run repaired (init k) es).
